@@ -11,6 +11,7 @@ import (
 	"io"
 	"net"
 	"strings"
+	"sync/atomic"
 	"time"
 
 	"nhooyr.io/websocket/internal/errd"
@@ -337,6 +338,8 @@ func (c *Conn) handleControl(ctx context.Context, h header) (err error) {
 
 	err = fmt.Errorf("received close frame: %w", ce)
 	c.writeClose(ce.Code, ce.Reason)
+	// Must be set before readMu is released, see waitCloseHandshake.
+	atomic.StoreInt32(&c.readClose, 1)
 	c.readMu.unlock()
 	c.close()
 	return err
